@@ -20,8 +20,11 @@ DEFAULT_OPTS = dict(
     ints=INT_PACKED + INT_ODD, floats=True, char=True, wchar=True, leb=True, void=True, enums=True, bits=True,
     arrays=True, expr=True, null=True, eof=True, pointers=True, nested=True, unions=True, anon=True,
     max_depth=2, max_fields=6, dynamic=True, hazard=True, multidim=True, struct_arrays=True, zero_len=True,
-    mixed_align=False,
+    mixed_align=False, long_strings=False,
 )
+
+
+LONG_LENGTHS = [127, 128, 129, 255, 256, 257, 300, 511, 512, 513, 1000, 1023, 1024, 1025, 2048, 4095, 4096, 4097, 5000, 8191, 8192, 8193]
 
 
 def opts(**kw):
@@ -410,6 +413,14 @@ def gen_value(draw, sem, t, ctx=None, small=False, nonzero=False):
         else:
             n = draw(st.integers(0, 3))
             nz = False
+        if form in ("null", "eof") and et["k"] == "s" and et["n"] in ("char", "wchar") and getattr(sem, "long_strings", False) and draw(st.integers(0, 5)) == 0:
+            # long terminated strings (lengths around typical chunk sizes), built from a short drawn pattern
+            n = draw(st.sampled_from(LONG_LENGTHS))
+            if et["n"] == "char":
+                pat = bytes(b or 0x41 for b in draw(st.binary(min_size=3, max_size=7)))
+                return (pat * (n // len(pat) + 1))[:n]
+            pat = draw(st.sampled_from(["ab", "xyz€", "héllo", "q"]))
+            return (pat * (n // len(pat) + 1))[:n]
         if n > 200:
             raise OverflowError("array too long for generation")
         if et["k"] == "s" and et["n"] == "char":
@@ -496,6 +507,7 @@ def input_case(draw, o=None, cfg_kw=None, tail=True, root_kind="struct"):
     o["align_hint"] = cfg["align"]
     d = draw(definition(o, root_kind=root_kind))
     sem = Sem(d["defs"], cfg)
+    sem.long_strings = bool(o.get("long_strings"))
     v = gen_value(draw, sem, ROOT)
     enc = bytes(sem.encode(ROOT, v))
     mask = bytearray(len(enc))
